@@ -701,7 +701,11 @@ impl UnifiedCommandExecutor {
             }
             
             StringCommand::DecrBy { key, decrement } => {
-                let result = self.storage.incr_by(db, key, -(decrement))?;
+                let increment = match decrement.checked_neg() {
+                    Some(n) => n,
+                    None => return Ok(RespFrame::error("ERR decrement would overflow")),
+                };
+                let result = self.storage.incr_by(db, key, increment)?;
                 Ok(RespFrame::Integer(result))
             }
             
@@ -1697,6 +1701,10 @@ impl UnifiedCommandExecutor {
             }
             
             BitCommand::SetBit { key, offset, value } => {
+                // Redis limits bit offsets to 2^32-1 (512 MB strings): the offset sizes a resize
+                if offset >= 4 * 1024 * 1024 * 1024 {
+                    return Ok(RespFrame::error("ERR bit offset is not an integer or out of range"));
+                }
                 let byte_offset = offset / 8;
                 let bit_offset = offset % 8;
                 
